@@ -63,7 +63,13 @@ def reviewed : List Reviewed := [
     verdict := .orderIrrelevant "per-key slots; the outer loop runs over the slice of sources in command-line order" },
   -- line 384: range pprofCommands (map[string]*internal/driver.command)   []string   then: return
   { site := { file := "internal/driver/interactive.go", fn := "matchVariableOrCommand", kind := .append, sink := "append", sorted := false, total := false, returned := true },
-    verdict := .orderIrrelevant "the result is used only when there is exactly one match" }
+    verdict := .orderIrrelevant "the result is used only when there is exactly one match" },
+  -- pick sites: a variable declared outside the map walk is overwritten with a value of the iteration —
+  -- an arbitrary element unless the map has at most one entry or all candidates lead to the same result
+  { site := { file := "internal/graph/graph.go", fn := "Graph.TrimTree", kind := .pick, sink := "pick:assign", sorted := false, total := false, returned := false },
+    verdict := .orderIrrelevant "the parent of a tree node: cur.In has exactly one entry here (len checked just above, panics otherwise)" },
+  { site := { file := "internal/driver/cli.go", fn := "outputFormat", kind := .pick, sink := "pick:assign", sorted := false, total := false, returned := false },
+    verdict := .orderIrrelevant "the selected output format: a second selected entry is an error whatever the order, so at most one entry ever assigns" }
 ]
 
 def sites : List Site := reviewed.map (·.site)
